@@ -168,6 +168,8 @@ extern Boolean IdentifySection(const struct sStrComp* pName, LongInt* Erg);
 
 extern Boolean ExpandStrSymbol(char* pDest, size_t DestSize, const struct sStrComp* pSrc);
 
+extern void FlushPendingPhaseError(void);
+
 extern void ChangeSymbol(struct sSymbolEntry* pEntry, LargeInt Value);
 
 extern struct sSymbolEntry* EnterIntSymbolWithFlags(
